@@ -376,9 +376,20 @@ package consensus
 //@ func (*DPoVP).UpdateStable   trusted
 //@   requires held(dp.chainLock)
 //@   modifies all
-//@ func (*DPoVP).insertConfirms   trusted
-//@   requires held(dp.chainLock)
+// C03: what reaches the store is the list the validator returned (signatures of deputies of the block's term over this block,
+// one per node, none the block already carries), never the packet as received.  gh("savedList") is the backing array handed to
+// SaveConfirm (assumed contract); the validator's result is a fresh list (VerifyNewConfirms, proved).
+//@ func (*Validator).VerifyConfirmPacket   trusted
+//@   modifies allbut(DPoVP, Confirmer, Validator)
+//@   ensures !isNil(result0) ==> fresh(result0)
+//@ func (*Confirmer).SaveConfirm   trusted
 //@   modifies all
+//@   ensures gh("savedList", 0) == arrayOf(sigList)
+//@ func (*DPoVP).insertConfirms
+//@   props C03 C19
+//@   requires dp != nil && dp.validator != nil && dp.confirmer != nil && held(dp.chainLock)
+//@   opt trust-pre=IsConfirmEnough#0
+//@   ensures result1 == nil ==> gh("savedList", 0) == arrayOf(validConfirms) && len(validConfirms) > 0
 //@ func (*DPoVP).onCurrentChanged   trusted
 //@   requires held(dp.chainLock)
 //@   modifies all
